@@ -550,10 +550,14 @@ def check_synthesis(ctx, cirq, n):
         nq = rng.choice([1, 2, 3])
         un = u3 if nq == 3 else gen.rand_unitary(rng, 2**nq)
         qs = cirq.LineQubit.range(nq)
+        if rng.random() < 0.5:
+            qs = rng.sample(qs, nq)  # the qubits in another order than sorted: the matrix is read in the order given
         ops = list(cirq.flatten_to_ops(cirq.quantum_shannon_decomposition(qs, un)))
         got = lean_product(ctx, cirq, ops, qs)
         ctx.count('check', 'shannon')
-        if not phase_close(got, un, 1e-5):
+        # (documented as preserving the global phase: compared exactly, global-phase operations included)
+        exact = cirq.Circuit(ops).unitary(qubit_order=qs, qubits_that_should_be_present=qs) if ops else np.eye(2**nq)
+        if not phase_close(got, un, 1e-5) or not np.allclose(exact, un, atol=1e-5):
             ctx.report_witness('synth:shannon', 'quantum_shannon_decomposition: the product of the operations is not the input', {'lines': [{'matrix': repr(np.round(un, 6).tolist())[:1500]}], 'impl_out': [len(ops)], 'spec_out': ['product = input up to phase'],
                                                                                                                         'theorem_or_correspondence': 'operation product via applyOps'})
         # multi-controlled single-qubit unitary
